@@ -251,7 +251,12 @@ func (fr *Frame) safety(kind string, st *State, goal string, pos token.Pos, text
 		name = fmt.Sprintf("%s@%d", base, k)
 	}
 	vc.obligs = append(vc.obligs, &Oblig{Name: name, Kind: kind, Reach: st.reach, Goal: goal, Pos: pos, Text: text, Func: vc.fn.String()})
-	// after the check, execution continues only if it held
+	// after the check, execution continues only if it held. Exceptions: a frame obligation that is syntactically false
+	// (the write is simply not allowed: the analysis goes on, the obligation is reported) and obligations that are not
+	// claimed for this check (they may be false; assuming them could make what follows vacuous).
+	if goal == "false" || (vc.noAssume != nil && vc.noAssume(name, kind)) {
+		return
+	}
 	st.reach = vc.define("r", "Bool", and(st.reach, goal))
 }
 
